@@ -7,6 +7,7 @@
 (* dispatcher's own steps Claim / ClaimNone / Publish / Delete / Release /   *)
 (* DeadLetter / Crash as logged by the Repository and Publisher doubles,     *)
 (* OutboxRows (table after a dispatcher pass), Advance (injected clock),     *)
+(* Preset (attempts column raised by the harness: long outage),              *)
 (* Final (after the drain rounds).  The outbox rows a mutation leaves behind *)
 (* are taken from the real table; the property invariants of NotifyOutbox    *)
 (* (EntryIffCommitted, BackoffBounded, AttemptsNeverExceedMax, ...) judge    *)
@@ -31,7 +32,11 @@ CfgOf(c) == [rules |-> {RuleOf(r) : r \in Rng(c.rules)}, eb |-> c.eb, versioned 
 
 \* observed seconds against a logical distance: the injected clock runs ahead of the
 \* logical one by the real time the case has taken so far
-DueOk(obs, units) == units * U - Slack <= obs /\ obs <= units * U
+\* (instants more than FarPast units ago are only checked to be that far in the past:
+\* keeps the arithmetic inside TLC's 32-bit integers; the driver saturates likewise)
+FarPast == 10000
+DueOk(obs, units) == IF units < -FarPast THEN obs <= -FarPast * U
+                     ELSE units * U - Slack <= obs /\ obs <= units * U
 
 \* the real outbox table equals the projection of the model's live entries
 RowsMatchIn(E, t, rows) ==
@@ -157,6 +162,13 @@ TAdvance ==
   /\ AdvanceTo(now + Trace[l].d)
   /\ Step
 
+\* the harness raised the attempts column of every idle pending row (long outage)
+TPreset ==
+  /\ Is("Preset")
+  /\ Rng(Trace[l].ids) = {id \in Ids : Idle(id)}
+  /\ PresetAttempts(Trace[l].n)
+  /\ Step
+
 \* after the drain rounds (clock advanced past every backoff and lease before each
 \* dispatcher pass) every entry has been delivered at least once or dead-lettered
 TFinal ==
@@ -164,5 +176,5 @@ TFinal ==
   /\ UNCHANGED vars /\ Step
 
 TNext == \/ TReset \/ TPutConfig \/ TMutate \/ TDispatchStart \/ TClaim \/ TClaimNone \/ TPublish
-         \/ TDelete \/ TRelease \/ TDeadLetter \/ TCrash \/ TDispatchEnd \/ TOutboxRows \/ TAdvance \/ TFinal
+         \/ TDelete \/ TRelease \/ TDeadLetter \/ TCrash \/ TDispatchEnd \/ TOutboxRows \/ TAdvance \/ TPreset \/ TFinal
 =============================================================================
